@@ -28,9 +28,27 @@ REQUIRED = {"points_edit_cells": 500, "scenario_override_cells": 1000, "redefini
 BUDGET_S = {"quick": 100, "thorough": 1200}
 
 
+def designed_specs():
+    """Time functions whose switching time IS a grid time, written directly into a stock equation and, for comparison, routed
+    through a flow: both stocks must integrate the same thing (the rate as it was at the previous grid point)."""
+    from decimal import Decimal as D
+    out = []
+    for (start, dt) in (("0", "0.1"), ("0", "0.2"), ("2.3", "0.1"), ("0", "0.05"), ("1", "0.3"), ("0", "0.25"), ("-1", "0.1"), ("64.1", "0.1")):
+        for k in range(1, 7):
+            ts = float(D(start) + k * D(dt))
+            for fn in (["step", 2.5, ts], ["pulse", 4.0, ts, 0.0], ["pulse", 1.0, ts, float(2 * D(dt))]):
+                els = [dict(name="c0", kind="constant", value=1.5),
+                       dict(name="f0", kind="flow", eq=["bin", "+", fn, ["bin", "*", ["ref", "c0"], ["num", 0.0]]]),
+                       dict(name="s0", kind="stock", init=1.0, eq=["ref", "f0"]),
+                       dict(name="s1", kind="stock", init=1.0, eq=fn),
+                       dict(name="s2", kind="stock", init=0.0, eq=["bin", "-", ["ref", "c0"], ["bin", "*", fn, ["num", 2.0]]])]
+                out.append(dict(run=dict(start=start, stop=str(D(start) + 10 * D(dt)), dt=dt), points={}, elements=els))
+    return out
+
+
 def gen_cases(tier, seed):
     n = 500 if tier == "quick" else 16000
-    return [dict(seed=seed * 1000003 + i) for i in range(n)]
+    return [dict(seed=seed * 1000003 + i) for i in range(n)] + [dict(spec=sp, seed=i, designed=True) for i, sp in enumerate(designed_specs())]
 
 
 def make_spec(case):
